@@ -282,6 +282,74 @@ theorem c14_t_Info_IsIntersecting (s : FracInfo.Info) (d : Dist) (hd : s.dist = 
       simp only [if_neg h1, if_neg h1', Bool.false_eq_true, if_false, c14_t_IsIntersecting d hp]
       cases isIntersecting? d qf qt <;> rfl
 
+/-- `Dist.add?` for every MID of a list, in order (`none` as soon as one `Add` panics) -/
+def addAll? : Dist → List Nat → Option Dist
+  | d, [] => some d
+  | d, m :: ms => (add? d m).bind fun d' => addAll? d' ms
+
+theorem addAll?_foldl (d d' : Dist) (mids : List Nat) (h : addAll? d mids = some d') : d' = mids.foldl Dist.add d := by
+  induction mids generalizing d with
+  | nil => simp [addAll?] at h; exact h.symm
+  | cons m ms ih =>
+    simp only [addAll?] at h
+    cases ha : add? d m with
+    | none => simp [ha] at h
+    | some d1 =>
+      have e : d1 = Dist.add d m := by
+        unfold add? at ha; split at ha
+        · simp at ha
+        · split at ha
+          · simp at ha
+          · split at ha <;> simp at ha; exact ha.symm
+      rw [ha] at h
+      simp only [Option.bind_some] at h
+      rw [List.foldl_cons, ← e]; exact ih d1 h
+
+private theorem plain_add (d : Dist) (h : Plain d) (m : Nat) (d1 : Dist) (ha : add? d m = some d1) : Plain d1 := by
+  have e : d1 = Dist.add d m := by
+    unfold add? at ha; split at ha
+    · simp at ha
+    · split at ha
+      · simp at ha
+      · split at ha <;> simp at ha; exact ha.symm
+  subst e
+  exact ⟨h.bucket_pos, h.span, h.size⟩
+
+/-- the loop of `Info.BuildDistribution` (`for _, id := range ids { s.Distribution.Add(id.MID) }`) on a plain
+distribution = the model's `Dist.add?` per MID, in order (hence `mids.foldl Dist.add d` when no `Add` panics:
+`addAll?_foldl`, `FracInfo.buildDistribution`) -/
+theorem c14_t_buildLoop (mids : List Nat) :
+    ∀ (d : Dist), Plain d →
+      T.buildLoop (ints d.mask.bin) mids d.dfrom d.dto d.bucket d.mask.size (fun m => (m : Int))
+        = (addAll? d mids).map fun d' => ints d'.mask.bin := by
+  unfold T.buildLoop
+  suffices hs : ∀ (I : List Nat) (ms : List Nat) (d : Dist), Plain d →
+      T.buildLoop_loop0 I d.dfrom d.dto d.bucket d.mask.size (fun m => (m : Int)) ms (ints d.mask.bin)
+        = (addAll? d ms).map fun d' => ints d'.mask.bin from fun d hd => hs mids mids d hd
+  intro I ms
+  induction ms with
+  | nil => intro d _; simp [T.buildLoop_loop0, addAll?]
+  | cons m ms ih =>
+    intro d hd
+    rw [T.buildLoop_loop0, c14_t_Add d hd m]
+    simp only [addAll?]
+    cases ha : add? d m with
+    | none => simp
+    | some d1 =>
+      have hp := plain_add d hd m d1 ha
+      have hf : d1.dfrom = d.dfrom ∧ d1.dto = d.dto ∧ d1.bucket = d.bucket ∧ d1.mask.size = d.mask.size := by
+        have e : d1 = Dist.add d m := by
+          unfold add? at ha; split at ha
+          · simp at ha
+          · split at ha
+            · simp at ha
+            · split at ha <;> simp at ha; exact ha.symm
+        subst e; exact ⟨rfl, rfl, rfl, rfl⟩
+      simp only [Option.map_some, Option.bind_some]
+      have := ih d1 hp
+      rw [hf.1, hf.2.1, hf.2.2.1, hf.2.2.2] at this
+      exact this
+
 /-- non-vacuity of `Plain`: one hour of one-minute buckets, 63 bits -/
 example : Plain ⟨0, 3600000000000, 60000000000, ⟨63, List.replicate 8 0⟩⟩ :=
   ⟨by decide, by decide, by decide⟩
